@@ -1,7 +1,7 @@
 (* C20 — property theorems only.  Each is closed by [exact <lemma>] and followed by Print Assumptions.
    Vectors have one entry per chemical and any length; [colsum ins i] is the sum over the inlets of
    chemical i; [nonneg v] / [bounded feed v] mean 0 <= v_i (<= feed_i) for every i. *)
-From V Require Import Common.NumFacts C20.Model C20.Proofs C20.ProofsDeep.
+From V Require Import Common.NumFacts C20.Model C20.Proofs C20.ProofsDeep C20.ProofsRound2.
 Open Scope Q_scope.
 
 (* ------------------------------------------------------------------ mix_and_split *)
@@ -823,4 +823,215 @@ Example C20_ex_partition_real :
   p_phi r = Ok (compute_phase_fraction_2N (1 # 2) (1 # 2) 2 (1 # 2)) /\
   compute_phase_fraction_2N (1 # 2) (1 # 2) 2 (1 # 2) == 1 # 2 /\
   (nthq (p_top r) 0 / (qsum (gather (p_top r) [0; 1]%nat) + 0)) / (nthq (p_bot r) 0 / (qsum (gather (p_bot r) [0; 1]%nat) + 0)) == 2.
+Proof. vm_compute. repeat split; reflexivity. Qed.
+
+(* ================================================================== deepening 2: an outlet IS the feed object *)
+(* partition(feed, top = feed, bottom): feed_mol is a live reference, so the last statement top = feed_mol - bottom reads
+   what the call itself wrote.  Per chemical on every normal return: top + bottom = feed, EXCEPT the chemicals forced to
+   the bottom, for which top + bottom = 0 (bottom holds the flow, the top minus the flow) *)
+Theorem C20_partition_top_is_feed : forall pf feed o0 ids K topc botc strict phi,
+  length feed = length o0 ->
+  let r := partition_alias pf false feed o0 ids K topc botc strict in
+  p_phi r = Ok phi ->
+  (forall i, ~ In i botc -> nthq (p_top r) i + nthq (p_bot r) i == nthq feed i) /\
+  (forall i, In i botc -> (i < length feed)%nat -> nthq (p_top r) i + nthq (p_bot r) i == 0).
+Proof. exact partition_top_is_feed_lemma. Qed.
+Print Assumptions C20_partition_top_is_feed.
+
+(* so the in-place call conserves every chemical exactly when the forced-bottom chemicals carry no flow ... *)
+Theorem C20_partition_top_is_feed_conserves : forall pf feed o0 ids K topc botc strict phi,
+  length feed = length o0 -> (forall i, In i botc -> nthq feed i == 0) ->
+  let r := partition_alias pf false feed o0 ids K topc botc strict in
+  p_phi r = Ok phi ->
+  forall i, nthq (p_top r) i + nthq (p_bot r) i == nthq feed i.
+Proof. exact partition_top_is_feed_conserves. Qed.
+Print Assumptions C20_partition_top_is_feed_conserves.
+
+(* ... and without forced-bottom chemicals it returns the same bottom, fraction and warnings as the call with a
+   separate top outlet, with no negative flow *)
+Theorem C20_partition_top_is_feed_same : forall pf feed o0 ids K topc strict,
+  let ra := partition_alias pf false feed o0 ids K topc [] strict in
+  let r := partition pf feed feed o0 ids K topc [] strict in
+  p_bot ra = p_bot r /\ p_phi ra = p_phi r /\ p_warns ra = p_warns r.
+Proof. exact partition_top_is_feed_same. Qed.
+Print Assumptions C20_partition_top_is_feed_same.
+
+Theorem C20_partition_top_is_feed_nonneg : forall pf feed o0 ids K topc strict phi,
+  length feed = length o0 -> nonneg feed -> bounded feed o0 ->
+  let r := partition_alias pf false feed o0 ids K topc [] strict in
+  p_phi r = Ok phi ->
+  forall i, 0 <= nthq (p_top r) i /\ 0 <= nthq (p_bot r) i <= nthq feed i.
+Proof. exact partition_top_is_feed_nonneg. Qed.
+Print Assumptions C20_partition_top_is_feed_nonneg.
+
+(* partition(feed, top, bottom = feed): feed_mol and bottom.mol are one vector when top = feed_mol - bottom runs: the
+   top outlet is EMPTY after every normal return *)
+Theorem C20_partition_bottom_is_feed_empties_top : forall pf feed o0 ids K topc botc strict phi,
+  length feed = length o0 ->
+  let r := partition_alias pf true feed o0 ids K topc botc strict in
+  p_phi r = Ok phi -> forall i, nthq (p_top r) i == 0.
+Proof. exact partition_bottom_is_feed_lemma. Qed.
+Print Assumptions C20_partition_bottom_is_feed_empties_top.
+
+(* the full statement for in-place calls (conservation and no negative flow for valid inputs) and its refutation by the
+   faithful model, for both kinds of aliasing *)
+Definition C20_partition_outlet_is_feed_statement := partition_alias_conserves_statement.
+Theorem C20_partition_top_is_feed_refuted : ~ C20_partition_outlet_is_feed_statement false.
+Proof. exact partition_top_is_feed_refuted. Qed.
+Print Assumptions C20_partition_top_is_feed_refuted.
+Theorem C20_partition_bottom_is_feed_refuted : ~ C20_partition_outlet_is_feed_statement true.
+Proof. exact partition_bottom_is_feed_refuted. Qed.
+Print Assumptions C20_partition_bottom_is_feed_refuted.
+
+(* lle with top or bottom = feed: the equilibrium runs on a copy; without mixing (efficiency >= 1) the result is that of
+   the call with separate outlets, hence conserving under the contract of the equilibrium call *)
+Theorem C20_lle_outlet_is_feed_same : forall rho eq extra b feed o0 top0 bot0 topchem eff,
+  1 <= eff ->
+  let ra := lle_wrap_alias rho eq extra b feed o0 topchem eff in
+  let r := lle_wrap rho eq extra feed top0 bot0 topchem eff in
+  e_err ra = e_err r /\ (e_err r = None -> e_top ra = e_top r /\ e_bot ra = e_bot r).
+Proof. exact lle_alias_same. Qed.
+Print Assumptions C20_lle_outlet_is_feed_same.
+
+Theorem C20_lle_outlet_is_feed_conserves : forall rho eq extra b feed o0 topchem eff rowL rowl,
+  eq feed = (rowL, rowl) -> length rowL = length feed -> length rowl = length feed ->
+  (forall i, nthq rowL i + nthq rowl i == nthq feed i) -> 1 <= eff ->
+  let r := lle_wrap_alias rho eq extra b feed o0 topchem eff in
+  e_err r = None ->
+  forall i, nthq (e_top r) i + nthq (e_bot r) i == nthq feed i.
+Proof. exact lle_alias_conserves_lemma. Qed.
+Print Assumptions C20_lle_outlet_is_feed_conserves.
+
+(* with mixing, mixing = (1 - eff)/2 * feed.mol reads the outlet that was just scaled, not the feed *)
+Theorem C20_lle_outlet_is_feed_mixing : forall rho eq extra b feed o0 topchem eff rowL rowl,
+  eq feed = (rowL, rowl) -> length rowL = length feed -> length rowl = length feed -> eff < 1 ->
+  let r := lle_wrap_alias rho eq extra b feed o0 topchem eff in
+  e_err r = None ->
+  exists row_alias, (row_alias = rowL \/ row_alias = rowl) /\
+  forall i, nthq (e_top r) i + nthq (e_bot r) i ==
+            eff * (nthq rowL i + nthq rowl i) + (1 - eff) * eff * nthq row_alias i.
+Proof. exact lle_alias_mix_lemma. Qed.
+Print Assumptions C20_lle_outlet_is_feed_mixing.
+
+Definition C20_lle_outlet_is_feed_statement := lle_alias_conserves_statement.
+Theorem C20_lle_outlet_is_feed_refuted : ~ C20_lle_outlet_is_feed_statement.
+Proof. exact lle_alias_refuted. Qed.
+Print Assumptions C20_lle_outlet_is_feed_refuted.
+
+(* ================================================================== deepening 2: ONE equilibrium chemical *)
+(* binary_phase_fraction.phase_fraction with a single chemical and no forced fractions returns 0 or 1 *)
+Theorem C20_solver_single_chemical : forall rootf z K za zb, za == 0 -> zb == 0 ->
+  pf_real rootf [z] [K] za zb = 0 \/ pf_real rootf [z] [K] za zb = 1.
+Proof. exact pf_real_single. Qed.
+Print Assumptions C20_solver_single_chemical.
+
+(* so partition sends a lone equilibrium chemical to one outlet as a whole *)
+Theorem C20_partition_real_single_not_interior : forall rootf feed top0 bot0 i K1 topc botc strict phi,
+  forced_sum feed topc == 0 -> forced_sum feed botc == 0 ->
+  let r := partition (pf_real rootf) feed top0 bot0 [i] [K1] topc botc strict in
+  p_phi r = Ok phi -> ~ 0 < phi < 1.
+Proof. exact partition_real_single_not_interior. Qed.
+Print Assumptions C20_partition_real_single_not_interior.
+
+(* C20_partition_real_K_exact for ANY number (>= 1) of equilibrium chemicals: with one chemical an interior fraction
+   only arises through the Rachford-Rice path with a forced chemical *)
+Theorem C20_partition_real_K_exact_any : forall rootf,
+  (forall zs Ks za zb, 0 < rootf zs Ks za zb < 1 -> rr_objective (rootf zs Ks za zb) zs Ks za zb == 0) ->
+  forall feed top0 bot0 ids K topc botc strict phi,
+  length feed = length bot0 -> nonneg feed ->
+  NoDup ids -> (forall i, In i ids -> (i < length bot0)%nat) ->
+  (1 <= length ids)%nat -> length K = length ids -> (forall k, 0 <= nthq K k) ->
+  let r := partition (pf_real rootf) feed top0 bot0 ids K topc botc strict in
+  p_phi r = Ok phi -> 0 < phi < 1 ->
+  let Fa := forced_sum feed topc in
+  let Fb := forced_sum feed botc in
+  let F := qsum (gather feed ids) + (Fa + Fb) in
+  let T := qsum (gather (p_top r) ids) + Fa in
+  let B := qsum (gather (p_bot r) ids) + Fb in
+  T == phi * F /\ B == (1 - phi) * F /\
+  forall k, (k < length ids)%nat -> ~ nthq (p_bot r) (nth k ids 0%nat) == 0 ->
+    (nthq (p_top r) (nth k ids 0%nat) / T) / (nthq (p_bot r) (nth k ids 0%nat) / B) == nthq K k.
+Proof. exact partition_real_K_exact_any. Qed.
+Print Assumptions C20_partition_real_K_exact_any.
+
+(* ================================================================== deepening 2: material_balance(composition) *)
+(* the while loop (any number of passes, any answers of the linear solver that honour A x = b): the inlets are scaled by
+   the last answer x (shifted by its most negative entry if it has one, so no factor is negative), whose change against
+   the previous iterate xprev passed the 1e-6 test; and if x needed no shift then, per chosen chemical,
+      inlet flow - (total inlet flow) * (outlet fraction)  =  (total(xprev) - total(x)) * (outlet fraction):
+   the net inlet composition meets the outlet composition up to the last change of the total, exactly at a fixed point *)
+Theorem C20_balance_composition : forall solve n ids vin cin cout fuel vin' bs,
+  (forall v, In v cin -> length v = n) ->
+  (forall kk b x, solve kk (mb_matrix ids vin) b = Ok x ->
+     length x = length vin /\ forall k, nthq (matvec (mb_matrix ids vin) x) k == nthq b k) ->
+  material_balance_comp solve n ids vin cin cout fuel = Ok (vin', bs) ->
+  exists xprev x,
+    vin' = scale_zip (shift_feasible x) vin /\
+    conv_measure (shift_feasible x) xprev <= conv_tol /\
+    (forall a, In a (shift_feasible x) -> 0 <= a) /\
+    ((forall a, In a x -> 0 <= a) ->
+     forall k, (k < length ids)%nat ->
+       colsum vin' (nth k ids 0%nat) + colsum cin (nth k ids 0%nat)
+         - (mix_total vin x + qsum (vsum n cin)) * nthq (comp_f n ids cout) k
+       == (mix_total vin xprev - mix_total vin x) * nthq (comp_f n ids cout) k).
+Proof. exact balance_composition_lemma. Qed.
+Print Assumptions C20_balance_composition.
+
+(* the quantities in it: f is the outlet's mole fraction of the chosen chemical, mix_total the molar flow of the scaled
+   variable inlets *)
+Theorem C20_balance_composition_fraction : forall n ids cout k,
+  (forall v, In v cout -> length v = n) -> (k < length ids)%nat -> ~ qsum (vsum n cout) == 0 ->
+  nthq (comp_f n ids cout) k == colsum cout (nth k ids 0%nat) / qsum (vsum n cout).
+Proof. exact comp_f_fraction. Qed.
+Print Assumptions C20_balance_composition_fraction.
+Theorem C20_balance_composition_total : forall n vin x,
+  (forall v, In v vin -> length v = n) -> length x = length vin ->
+  mix_total vin x == qsum (vsum n (scale_zip x vin)).
+Proof. exact mix_total_is_total. Qed.
+Print Assumptions C20_balance_composition_total.
+
+(* a normal return needs variable inlets, constant inlets (sum([]) = 0 cannot be indexed: TypeError) and outlets *)
+Theorem C20_balance_composition_needs : forall solve n ids vin cin cout fuel vin' bs,
+  material_balance_comp solve n ids vin cin cout fuel = Ok (vin', bs) ->
+  length vin = length ids /\ cin <> [] /\ cout <> [].
+Proof. intros. destruct (comp_result_lemma _ _ _ _ _ _ _ _ _ H) as (A & B & C & _). auto. Qed.
+Print Assumptions C20_balance_composition_needs.
+
+(* ---- non-vacuity of the deepening-2 theorems *)
+(* in-place partition (top is the feed) with a forced top chemical: same flows as with a separate top *)
+Example C20_ex_partition_top_is_feed :
+  let r := partition_alias (fun _ _ _ _ => 1 # 2) false ex_feed [0; 0; 0; 0; 0] [0; 1]%nat [2; 1 # 2] [2]%nat [] true in
+  p_phi r = Ok (1 # 2) /\ vapproxb (p_top r) [8 # 3; 2 # 3; 1; 1; 3] = true /\ vapproxb (p_bot r) [4 # 3; 4 # 3; 0; 0; 0] = true /\
+  (* with the forced bottom chemical of C20_ex_partition the top ends with -1 of it *)
+  vapproxb (p_top (partition_alias (fun _ _ _ _ => 1 # 2) false ex_feed [0; 0; 0; 0; 0] [0; 1]%nat [2; 1 # 2] [2]%nat [3]%nat true))
+           [8 # 3; 2 # 3; 1; -1; 3] = true /\
+  (* bottom is the feed: the top is emptied, the top share is gone *)
+  pres_eqb (partition_alias (fun _ _ _ _ => 1 # 2) true ex_feed [0; 0; 0; 0; 0] [0; 1]%nat [2; 1 # 2] [] [] true)
+           [0; 0; 0; 0; 0] [4 # 3; 4 # 3; 1; 1; 3] (Ok (1 # 2)) 0 = true.
+Proof. vm_compute. repeat split; reflexivity. Qed.
+
+Example C20_ex_lle_outlet_is_feed :
+  let rho := rho_stub [16; 32] [1 # 32; 1 # 64] in
+  eqres_eqb (lle_wrap_alias rho (fun _ => ([1; 1], [1; 3])) 0 false [2; 4] [9; 9] true 1) [1; 1] [1; 3] None = true /\
+  eqres_eqb (lle_wrap_alias rho (fun _ => ([1; 1], [1; 3])) 0 false [2; 4] [9; 9] true (1 # 2)) [5 # 8; 5 # 8] [5 # 8; 13 # 8] None = true.
+Proof. vm_compute. repeat split; reflexivity. Qed.
+
+(* one equilibrium chemical with a forced top and a forced bottom chemical: the Rachford-Rice wrapper hands the root
+   finder's value (1/2, a root) through; without forced chemicals the answer is 0 or 1 *)
+Example C20_ex_single_chemical :
+  let r := partition (pf_real (fun _ _ _ _ => 1 # 2)) [2; 1; 1] [0; 0; 0] [0; 0; 0] [0]%nat [1] [1]%nat [2]%nat false in
+  p_phi r = Ok (1 # 2) /\ rr_objective (1 # 2) [1 # 2] [1] (1 # 4) (1 # 4) == 0 /\
+  p_phi (partition (pf_real (fun _ _ _ _ => 1 # 2)) [2; 1; 1] [0; 0; 0] [0; 0; 0] [0]%nat [2] [] [] false) = Ok 0 /\
+  p_phi (partition (pf_real (fun _ _ _ _ => 1 # 2)) [2; 1; 1] [0; 0; 0] [0; 0; 0] [0]%nat [1 # 2] [] [] false) = Ok 1.
+Proof. vm_compute. repeat split; reflexivity. Qed.
+
+(* composition balance, identity inlet matrix (the solver returns b): two passes, fixed point x = (0, 2); the net inlets
+   (2, 2) have the outlet's composition (1/2, 1/2) *)
+Example C20_ex_balance_composition :
+  let solve := fun (_ : nat) (_ : list vec) (b : vec) => Ok b in
+  let vin := [[1; 0]; [0; 1]] in let cin := [[2; 0]] in let cout := [[2; 2]] in
+  comp_res_eqb (material_balance_comp solve 2 [0; 1]%nat vin cin cout 5) [[0; 0]; [0; 2]] [[0; 2]; [0; 2]] = true /\
+  veqb (matvec (mb_matrix [0; 1]%nat vin) [0; 2]) (comp_b 2 [0; 1]%nat vin cin cout [0; 2]) = true /\
+  comp_err_eqb (material_balance_comp solve 2 [0; 1]%nat vin [] cout 5) EType = true /\
+  comp_err_eqb (material_balance_comp solve 2 [0; 1]%nat vin cin cout 1) ERuntime = true.
 Proof. vm_compute. repeat split; reflexivity. Qed.
